@@ -31,6 +31,16 @@ void newline_del_between(Chunk *start, Chunk *end)
    {
       return;
    }
+
+   // Can't join lines across a disabled region: its lines are copied through as they are
+   for (Chunk *tmp = start; tmp != end && tmp->IsNotNullChunk(); tmp = tmp->GetNext())
+   {
+      if (tmp->Is(CT_IGNORED))
+      {
+         return;
+      }
+   }
+
    Chunk *pc           = start;
    bool  start_removed = false;
 
